@@ -201,6 +201,35 @@ def main():
             else:
                 prop_viol.append(dict(case, clause='box circumscribing circle contains its corners'))
 
+    # unions whose extreme on one side is EXACTLY 0 (a falsy value), held by the member at every position,
+    # the other members not reaching 0 on that side
+    for side in range(4):                       # 0 min lon, 1 min lat, 2 max lon, 3 max lat
+        for n_members in (2, 3, 4):
+            for pos in range(n_members):
+                boxes = []
+                for i_ in range(n_members):
+                    off = 0 if i_ == pos else 6 * (i_ + 1)      # doubled-grid units
+                    sgn = 1 if side < 2 else -1                 # min sides: others lie at positive offsets; max sides: negative
+                    lo_x, lo_y = (sgn * off if side in (0, 2) else 10 + i_), (sgn * off if side in (1, 3) else 10 + i_)
+                    if side in (0, 1):
+                        nw_, se_ = (lo_x, lo_y + 4), (lo_x + 4, lo_y)
+                    elif side == 2:
+                        nw_, se_ = (lo_x - 4, lo_y + 4), (lo_x, lo_y)
+                    else:
+                        nw_, se_ = (lo_x, lo_y), (lo_x + 4, lo_y - 4)
+                    boxes.append((nw_, se_))
+                polys_ = [GeoPolygon([C2(p) for p in [nw_, (nw_[0], se_[1]), se_, (se_[0], nw_[1]), nw_]]) for nw_, se_ in boxes]
+                gb = [GeoBox(C2(nw_), C2(se_)) for nw_, se_ in boxes]
+                tb = [b_.copy() for b_ in gb]
+                for i_, s_ in enumerate(tb):
+                    s_.set_dt(mk_dt(('i', i_)))
+                for kind, M, members in (('multipolygon', MultiGeoPolygon(polys_), polys_), ('featurecollection', FeatureCollection(gb), gb),
+                                         ('track', Track(tb), tb), ('fc+fc', FeatureCollection(gb[:1]) + FeatureCollection(gb[1:]), gb)):
+                    bs = [ib(m.bounds) for m in members]
+                    add(f'KUnion {listlit([bndlit(x) for x in bs])} {reslit(guarded(lambda: ib(M.bounds)), bndlit)}',
+                        {'k': 'union-zero-extreme', 'kind': kind, 'side': side, 'pos': pos, 'bs': bs})
+                    nontriv.add((kind, side, pos, n_members))
+
     # symmetric boxes must be fully enclosed (the part of the box clause that is true)
     for w, h in ((2, 2), (40, 10), (7, 120), (300, 60)):
         B = GeoBox(C2((-w, h)), C2((w, -h)))
@@ -225,6 +254,18 @@ def main():
                     # boundary coordinates are rounded to 1e-7 deg (about 1.1 cm): allow that absolute slack
                     if ex > 1e-6 and ex * cc.radius > 0.02:
                         prop_viol.append({'clause': 'curved shape circumscribing circle contains its boundary vertices', 'shape': repr(S), 'excess_over_radius': ex})
+    # D.1b wedges incl. those starting or ending exactly at north (angle 0 is falsy in the code's wedge test)
+    for lat, lon in ((0, 0), (40, -100), (-60, 150)):
+        for r in (800, 9000, 60_000):
+            for a0, a1 in ((0, 45), (0, 180), (0, 270), (-200, 0), (-90, 0), (30, 300), (10, 120), (200, 340)):
+                W = GeoRing(Coordinate(lon, lat), r * 0.25, r, angle_min=a0, angle_max=a1)
+                cc = W.circumscribing_circle()
+                vs = W.bounding_coords()
+                corpus_n += 1
+                ex = enclosure_excess(vs, cc)
+                if ex > 1e-6 and ex * cc.radius > 0.02:
+                    prop_viol.append({'clause': 'wedge circumscribing circle contains its boundary vertices', 'center': [lon, lat], 'r': r,
+                                      'angles': [a0, a1], 'excess_over_radius': ex})
     # D.2 curved bounds within 1% of the radius of the true extents (radius <= 10 km, |lat| <= 75)
     for lat in (-75, -50, 0, 20, 60, 75):
         for lon in (-150, 0, 90):
